@@ -410,7 +410,8 @@ func checkFieldRelink(c *core.Ctx, l *core.Ledger, rule string) {
 	// ServiceSpec.Parent from resolveService
 	if f := c.SSAFunc(c.LookupFunc("compile", "ServiceSpec.Link")); f != nil {
 		ok := false
-		core.Instrs(f, func(in ssa.Instruction) {
+		// in Link itself or in a helper of the package that Link calls
+		core.WalkInlined(f, inlineHelpers("resolveService"), func(in ssa.Instruction, via []*ssa.Call) {
 			if st, isSt := in.(*ssa.Store); isSt {
 				if fa, isFA := st.Addr.(*ssa.FieldAddr); isFA && core.FieldOf(fa).Name() == "Parent" {
 					if strings.Contains(core.Sym(st.Val), "resolveService(") {
